@@ -403,6 +403,40 @@ def run(ctx):
                 bad.append((inv.get(h, h), 'unexpectedly feeds a recipient list via %s' % (rw,)))
             if (saved == 1) == (h in nosave):
                 bad.append((inv.get(h, h), 'saved=%s' % saved))
+    # token lists that live for the whole run must each own the text buffer their tokens point into
+    owners = {}
+    ncalls = 0
+    for f_ in prog.functions():
+        if f_.unit != 'qmail-inject.c':
+            continue
+        for c in f_.calls('token822_parse'):
+            ncalls += 1
+            a0, a2 = c.args[0].strip(), c.args[2].strip()
+            lst = a0.args[0].path() if a0.k == 'un' and a0.op == '&' else None
+            buf = a2.args[0].path() if a2.k == 'un' and a2.op == '&' else None
+            if lst and buf and lst.startswith('G:') and buf.startswith('G:'):
+                owners.setdefault(buf, set()).add(lst)
+    if ncalls < 3:
+        raise AnalysisBroken('qmail-inject.c: token822_parse() calls not found')
+    # lists parsed once at start-up and used later (controls) versus the per-header scratch list: a buffer may serve several
+    # lists only if all of them are re-parsed for every header field (the scratch pattern: same function as the use)
+    parsed_in = {}
+    for f_ in prog.functions():
+        if f_.unit == 'qmail-inject.c':
+            for c in f_.calls('token822_parse'):
+                a0 = c.args[0].strip()
+                if a0.k == 'un' and a0.op == '&' and a0.args[0].path():
+                    parsed_in.setdefault(a0.args[0].path(), set()).add(f_.name)
+
+    def long_lived(lst):
+        # referenced in a function that does not parse it: the tokens must survive until then
+        for f_ in prog.functions():
+            if f_.unit == 'qmail-inject.c' and f_.name not in parsed_in.get(lst, ()):
+                if any(lst in (x.refs() if hasattr(x, 'refs') else ()) for x in f_.all_x() if x.k in ('ref',)) or any(x.k == 'ref' and x.n.get('d') == lst for x in f_.all_x()):
+                    return True
+        return False
+    shared = {b: sorted(l) for b, l in owners.items() if len(l) > 1 and any(long_lived(x_) for x_ in l)}
+    r4.check(not shared, 'long-lived-token-lists-own-their-text-buffer', 'qmail-inject.c', 'text buffers filled for more than one global token list: %s; tokens are pointers into the buffer, so parsing the second list rewrites the atoms of the first (default domain and plus domain garbled in rewritten addresses)' % shared)
     r4.check(not bad, 'header-kind->(recipient-list,saved)', 'qmail-inject.c:doheaderfield', 'deviations: %s' % bad[:6])
     notseen = [inv.get(h, h) for h in range(1, 29) if dh.seen.get(h) != {1}]
     r4.check(not notseen, 'every-recognised-field-is-recorded-as-seen', 'qmail-inject.c:doheaderfield',
